@@ -15,7 +15,7 @@ git apply --check $SRC/patch.diff || { echo "PATCH DOES NOT APPLY"; git -C /repo
 /venv/bin/python $SRC/demo.py > $DST/demo_clean.log 2>&1; CLEAN=$?
 git apply $SRC/patch.diff
 /venv/bin/python $SRC/demo.py > $DST/demo_patched.log 2>&1; PATCHED=$?
-if [ "${SKIP_BASELINE:-0}" = "1" ]; then BASE="skipped"; else BASE=$(/verif/tools/run_baseline.sh $WT 2>&1 | tail -2); git apply $SRC/patch.diff 2>/dev/null; fi
+if [ "${SKIP_BASELINE:-0}" = "1" ]; then BASE=$(python3 -c "import json,sys; print(json.load(open('$DST/verify.json')).get('baseline','skipped'))" 2>/dev/null || echo skipped); BASE="$BASE (recorded by an earlier run of this script)"; else BASE=$(/verif/tools/run_baseline.sh $WT 2>&1 | tail -2); git apply $SRC/patch.diff 2>/dev/null; fi
 git diff --stat | tail -1
 echo "demo clean exit=$CLEAN patched exit=$PATCHED"; echo "$BASE"
 cp $SRC/patch.diff $SRC/demo.py $DST/; cp $SRC/README.md $DST/README.agent.md 2>/dev/null
